@@ -72,6 +72,8 @@ pub fn build(sc: &Scenario, rng: &mut Rng) -> Vec<Step> {
     }
     for i in 0..sc.acl_writes {
         pool.push(Step::WriteAcl { ctx: SCtx::CaseA, n: i });
+        // another committed change of the fabric record (VID verification statement vendor id)
+        pool.push(Step::SetVid { ctx: SCtx::CaseA, n: i });
     }
     // group membership (lives in the fabric record): add, then rename once or twice
     let mut group_steps: Vec<Step> = Vec::new();
